@@ -219,3 +219,24 @@ for _name, _k in (('TypeBlocks._fillna_sided_axis_0', 'gy'), ('TypeBlocks._filln
         at_yield=['gy < len(blocks)', _SAME_SHAPE.format(k=_k)],
         yield_update=['gy = gy + 1'],
         at_exit=['gy == len(blocks)'])
+
+# forward / backward fill along axis 0: the same block discipline (one array per block, block order, shape kept; the filled runs themselves come from
+# `slices_from_targets`, which is under its own functional contract)
+contract(TB, 'TypeBlocks._fillna_directional_axis_0',
+    props=['C14', 'C03'],
+    params=dict(blocks='list[arr]', directional_forward='bool', limit='int'), order=['blocks', 'directional_forward', 'limit'],
+    lenient=True, lenient_protect=['gy', 'b'],
+    is_generator=True, yield_sort='arr',
+    requires=['forall_in(0, len(blocks), lambda k: at(blocks, k).ndim == 1 or at(blocks, k).ndim == 2)'],
+    raises={'Exception': 'maybe'},
+    # ASSUMED: the missing-value mask has the shape of the array it is computed from
+    calls={'isna_array': dict(assumed=True, params=dict(array='arr'), order=['array'], result='arr',
+                              ensures=['result.ndim == array.ndim', 'result.rows == array.rows', 'result.cols == array.cols'])},
+    ghost_init=['gy = 0'],
+    n_loops=3,
+    loops={0: dict(index='t', locals=dict(gy='int'), ghost_mods=['gy'], invariant=['gy == t']),
+           1: dict(index='u', locals=dict(assigned='arr'), invariant=[_KEEP]),
+           2: dict(index='w', locals=dict(assigned='arr'), invariant=[_KEEP])},
+    at_yield=['gy < len(blocks)', _SAME_SHAPE.format(k='gy')],
+    yield_update=['gy = gy + 1'],
+    at_exit=['gy == len(blocks)'])
